@@ -475,8 +475,9 @@ def rule_error_tables(ctx):
     ok = len(tr) == 1
     if ok:
         bn = hr.stmt.targets[0].id if isinstance(hr.stmt, ast.Assign) and isinstance(hr.stmt.targets[0], ast.Name) else None
-        tt = [t for t in cd.nodes if t.kind == "test" and bn and is_none_test(t.ast, negate=True) is not None and unparse(is_none_test(t.ast, negate=True)) == bn]
-        ok = bool(tt) and cd.dominated_by_branch(tt[0], "F", tr[0])
+        from ..rulekit import none_tests
+        tt = none_tests(cd, bn) if bn else []
+        ok = bool(tt) and cd.dominated_by_branch(tt[0][0], tt[0][1], tr[0])
     ctx.ob(R, fd, fd.node, ok, "do() reports success although handle_response asked for a retry", text="do-success")
     hs = [n for n in cd.nodes if n.kind == "handler"]
     ctx.ob(R, fd, fd.node, any("NodeNotReadyError" in unparse(h.ast.type) and "RequestTimedOutError" in unparse(h.ast.type) for h in hs) and
